@@ -2,7 +2,9 @@ SPECIFICATION Spec
 CONSTANTS
     M = 64
     W = 4
-    Band = 64
+    DocW = 4
+    AllPairs = TRUE
+    Band = 0
     Chunks = 4
     ASel = "all"
     CoreDLt = TRUE
@@ -16,10 +18,11 @@ INVARIANTS
     OrdAgrees
     OrdIsPlainBeyond
     OrdInvertedAcrossWrap
+    OrdTotalAtMaxTolerance
     OffsetAgreesCore
     FormsCoincide
     AllLemmas
     AddSubWrap
-    Transitive
+    WindowOrder
     NegativeWitness
 CHECK_DEADLOCK FALSE
